@@ -43,6 +43,33 @@ def judge_known_unshrunk(ctx, res, theorem_hint):
     ctx.judge(r2, theorem_hint=theorem_hint)
 
 
+def race_run(ctx):
+    """Thorough tier: the concurrent stream once more in a binary built with the Go race detector. A reported data
+    race on the pool (an access outside the RWMutex) is a violation with the detector's report as the replay."""
+    import os
+    import vcheck
+    out_bin = os.path.join(ctx.bindir, "hpool_race")
+    rc, out = vcheck.sh(["go", "build", "-race", "-modfile=" + os.path.join(ctx.moddir, "go.mod"), "-tags", "verif",
+                         "-o", out_bin, "./cmd/hpool"], cwd=vcheck.HARNESS, env=vcheck.GOENV, timeout=1800)
+    ctx.note("go build -race cmd/hpool rc=%d" % rc)
+    if rc != 0:
+        ctx.cov["race_detector"] = "not run: race build failed: " + out[-300:]
+        return
+    base = os.path.join(ctx.tmpdir, "poolconc-race")
+    env = dict(vcheck.GOENV)
+    env["GORACE"] = "halt_on_error=1 exitcode=66"
+    rc, out = vcheck.sh([out_bin, "poolconc", "-seed", str(ctx.seed + 1000), "-tier", "quick", "-ops", base + ".ops",
+                         "-out", base + ".go", "-viol", base + ".viol", "-stats", base + ".stats"], env=env, timeout=1800)
+    ctx.note("race-detector run of poolconc rc=%d" % rc)
+    ctx.cov["race_detector"] = "poolconc (quick size, seed+1000) under -race: rc=%d" % rc
+    if rc == 66 or "DATA RACE" in out:
+        ctx.violate("C37:data-race", "the Go race detector reports an unsynchronised access while goroutines use the TXPool concurrently",
+                    {"kind": "input", "stream": "poolconc-race", "report": out[-6000:]}, found_input=True)
+    elif rc != 0:
+        ctx.violate("precondition:harness-run:poolconc-race", "race-detector run crashed (rc=%d)" % rc,
+                    {"kind": "harness-crash", "output": out[-4000:]}, found_input=False)
+
+
 def run(ctx):
     ctx.level = "proof"
     ctx.assumptions += [
@@ -61,4 +88,6 @@ def run(ctx):
         ctx.judge(res, theorem_hint="Poly.Props.C37 sequential theorems (a recorded concurrent history has no linearization accepted by the model)")
         res = ctx.correspondence("poolsrv", hbin, ["poolsrv"], drv, ["poolsrv"], mem_gb=14)
         judge_known_unshrunk(ctx, res, "Poly.Props.C37 server-level theorems (count model Srv no longer matches txnpool/proc at quiescent points)")
+    if hbin and ctx.thorough() and ctx.replay is None:
+        race_run(ctx)
     ctx.judge_lean()
